@@ -214,20 +214,67 @@ example (s : DState) (hs : s = { fs := { nodes := [([97], .file [] 0o644), ([98]
 
 /-- **a file which is to be removed but is not there (any more) is still the file the patch is about** (NEW with the model change
     D88: the last fallback of `guess_filepath` no longer asks for `-R`): for a deletion, when none of the names of the header exists,
-    the file to patch is the old name — with or without `-R` (and `processSection` then reads the missing file as empty) -/
+    the file to patch is the old name — with or without `-R` (and `processSection` then reads the missing file as empty).
+    CHANGED with the model change `first_name_of` (D104): the old name is a name (`hne`, `hnn`, new): `/dev/null` and a name which was
+    left out are never the file to patch — the next of old, new and `Index:` name is (`guessFilepath_delete_missing_names`). -/
 theorem guessFilepath_delete_missing (p : Patch) (r : Bool) (s : DState) (hop : p.operation = .delete)
+    (hne : p.oldPath ≠ []) (hnn : p.oldPath ≠ devNull)
     (hold : (s.fs.stat (absPath s p.oldPath)).isSome = false)
     (hnew : (s.fs.stat (absPath s p.newPath)).isSome = false)
     (hidx : (s.fs.stat (absPath s p.indexPath)).isSome = false) :
     (guessFilepath p r).run s = (.ok p.oldPath, s) := by
   unfold guessFilepath
   simp only [DriverFacts.run_bind, DriverFacts.run_fsExists, DriverFacts.run_ite, DriverFacts.run_pure, hold, hnew, hidx, hop,
-    Bool.and_false, Bool.false_eq_true, ↓reduceIte, beq_self_eq_true]
+    Bool.and_false, Bool.false_eq_true, ↓reduceIte, beq_self_eq_true, DriverFacts.firstNameOf_cons_of_name hne hnn]
   rfl
+
+/-- the general form: for a deletion none of whose names exists the file to patch is the first of the old, the new and the `Index:`
+    name which is a name; for a creation the first of the new, the old and the `Index:` name -/
+theorem guessFilepath_missing_names (p : Patch) (r : Bool) (s : DState) (hop : p.operation = .delete ∨ p.operation = .add)
+    (hold : (s.fs.stat (absPath s p.oldPath)).isSome = false)
+    (hnew : (s.fs.stat (absPath s p.newPath)).isSome = false)
+    (hidx : (s.fs.stat (absPath s p.indexPath)).isSome = false) :
+    (guessFilepath p r).run s =
+      (.ok (if p.operation = .add then firstNameOf [p.newPath, p.oldPath, p.indexPath]
+            else firstNameOf [p.oldPath, p.newPath, p.indexPath]), s) := by
+  unfold guessFilepath
+  rcases hop with hop | hop
+  all_goals
+    simp only [DriverFacts.run_bind, DriverFacts.run_fsExists, DriverFacts.run_ite, DriverFacts.run_pure, hold, hnew, hidx, hop,
+      Bool.and_false, Bool.false_eq_true, ↓reduceIte, beq_self_eq_true]
+    try rfl
+
+/-- **`/dev/null` is never the file to patch** (D104) — the one rule which does not look: under `-R` the new name of a rename or
+    copy, if that exists -/
+theorem guessFilepath_never_devnull (p : Patch) (r : Bool) (s s' : DState) (f : Bytes)
+    (hr : (r && (p.operation == .rename || p.operation == .copy)) = false)
+    (h : (guessFilepath p r).run s = (.ok f, s')) : f ≠ devNull := by
+  unfold guessFilepath at h
+  simp only [DriverFacts.run_bind, DriverFacts.run_fsExists, DriverFacts.run_ite, DriverFacts.run_pure, hr, Bool.false_and,
+    Bool.false_eq_true, ↓reduceIte] at h
+  repeat' split at h
+  all_goals first
+    | (cases h; exact DriverFacts.firstNameOf_ne_devNull _)
+    | (cases h; exact fun e => DriverFacts.devNull_ne_nil e.symm)
+    | (cases h; simp_all)
+
+/-- **a removal named only by an `Index:` line** (a normal diff has no other name): old and new name left out, the file `f` of the
+    `Index:` line missing: the patch is about `f` (so that it can be reversed, or recognised as applied) -/
+theorem guessFilepath_index_only (p : Patch) (r : Bool) (s : DState) (f : Bytes) (hop : p.operation = .delete)
+    (hold : p.oldPath = []) (hnew : p.newPath = []) (hidx : p.indexPath = f) (hne : f ≠ []) (hnn : f ≠ devNull)
+    (hmiss : (s.fs.stat (absPath s f)).isSome = false)
+    (hnil : (s.fs.stat (absPath s [])).isSome = false) :
+    (guessFilepath p r).run s = (.ok f, s) := by
+  rw [guessFilepath_missing_names p r s (.inl hop) (by rw [hold]; exact hnil) (by rw [hnew]; exact hnil) (by rw [hidx]; exact hmiss)]
+  rw [if_neg (by rw [hop]; decide), hold, hnew, hidx, DriverFacts.firstNameOf_cons_skip (.inl rfl),
+    DriverFacts.firstNameOf_cons_skip (.inl rfl), DriverFacts.firstNameOf_cons_of_name hne hnn]
 
 end PatchModel.C01
 
 #print axioms PatchModel.C01.guessFilepath_delete_missing
+#print axioms PatchModel.C01.guessFilepath_missing_names
+#print axioms PatchModel.C01.guessFilepath_never_devnull
+#print axioms PatchModel.C01.guessFilepath_index_only
 #print axioms PatchModel.C01.C01_section
 #print axioms PatchModel.C01.C01_section_terminated
 #print axioms PatchModel.C01.C01_section_flat
